@@ -50,3 +50,46 @@ Proof. vm_compute. split; reflexivity. Qed.
 Print Assumptions c12_translated_exec_proxy_sends_the_raw_request.
 Print Assumptions c12_translated_migrate_proxy_sends_the_raw_request.
 Print Assumptions c12_translated_downcast_error.
+
+(* ------------------------------------------------------------------------------------------ *)
+(* The GENERATED instantiate proxy (templates of sylvia-derive/src/contract/mt.rs, translated on every run with their
+   type-level holes erased - the code every contract gets; Facts/MtGenRefine.v). *)
+Require Import SV.Facts.MtGenRefine.
+
+(* `CodeId::instantiate` starts with no funds, the label "Contract", no admin and no salt; then ANY sequence of
+   with_funds / with_label / with_admin / with_salt (a value or an Option of it) changes exactly its own field, the last
+   setter of a field winning *)
+Theorem c12_translated_generated_instantiate_options : forall ok ok2 ty txt payload cid steps,
+  calls (PG ok ok2 ty txt payload) 3 "CodeId::instantiate" [cid] (CVal (ip_rep cid (VRec "InstantiateMsg" []) ip_init)) /\
+  forall msg, ip_chain ok ok2 ty txt payload (ip_rep cid msg ip_init) steps (ip_rep cid msg (fold_left ip_apply steps ip_init)).
+Proof. intros. split; [apply calls_code_id_instantiate | intros; apply ip_chain_spec]. Qed.
+
+(* `call` without a salt makes exactly the request instantiate_contract(app, code id, sender, message, funds, label, admin)
+   with the proxy's fields; a success becomes a Proxy for the returned address on the same app, a failure goes through
+   downcast_error *)
+Theorem c12_translated_generated_instantiate_call : forall ok ok2 ty txt payload n inner msg sender f l a,
+  calls (PG ok ok2 ty txt payload) 3 "InstantiateProxy::call" [ip_val (code_id_val n (app_val inner)) f l a none msg; sender]
+    (CVal (let d := did "extern::instantiate_contract" [inner; n; sender; msg; f; l; a] payload in
+           if ok then VCon "Ok" [proxy_val d (app_val inner)]
+           else VCon "Err" [VCon "downcast_error" [anyhow ty d txt]])).
+Proof. exact calls_ip_call_plain. Qed.
+
+(* `call` with a salt makes exactly the request execute(app, sender, Instantiate2 {admin, code_id, msg = the serialised
+   message, funds, label, salt}) - every option of the proxy reaches the message - and a failure goes through
+   downcast_error; the new address is what cw_utils parses out of the response data, a parse failure a StdError *)
+Theorem c12_translated_generated_instantiate2_call : forall ok2 ty txt payload n inner msg sender f l a salt,
+  calls (PG true ok2 ty txt payload) 3 "InstantiateProxy::call" [ip_val (code_id_val n (app_val inner)) f l a (some salt) msg; sender]
+    (CVal (let d := did "extern::execute" [inner; sender; inst2_msg n msg f l a salt] payload in
+           if ok2 then VCon "Ok" [proxy_val (VCon "Into::into" [d]) (app_val inner)]
+           else VCon "Err" [VCon "Into::into" [VCon "StdError::GenericErr" [VStr "parse error"]]])) /\
+  calls (PG false ok2 ty txt payload) 3 "InstantiateProxy::call" [ip_val (code_id_val n (app_val inner)) f l a (some salt) msg; sender]
+    (CVal (VCon "Err" [VCon "From::from" [VCon "downcast_error"
+       [anyhow ty (did "extern::execute" [inner; sender; inst2_msg n msg f l a salt] payload) txt]]])).
+Proof.
+  intros. split; [apply (calls_ip_call_salt_ok true ok2 ty txt payload); reflexivity
+                 | apply (calls_ip_call_salt_err false ok2 ty txt payload); reflexivity].
+Qed.
+
+Print Assumptions c12_translated_generated_instantiate_options.
+Print Assumptions c12_translated_generated_instantiate_call.
+Print Assumptions c12_translated_generated_instantiate2_call.
